@@ -237,6 +237,7 @@ type Sim struct {
 	faultAt, faultAt2 int
 	faultKind, faultKind2 string
 	faultsFired      int
+	lateFrom, lateSeen int // C11 canary-fail-late: faults after call lateFrom are followed by a long pause
 	finalState       string
 	faultyDrain bool // Drain draws API faults too (state-injection bodies)
 	QuiesceHook func(round int)
